@@ -3,3 +3,4 @@ import Thanos.Driver.Misc
 import Thanos.Props.C45
 import Thanos.Props.C49
 import Thanos.Props.C46
+import Thanos.Props.C47
